@@ -58,9 +58,16 @@ namespace ikos {
  */
 
 template <typename Number> void congruence<Number>::normalize(void) {
-  // Set to standard form: 0 <= b < a for a != 0
+  // Set to standard form: a >= 0 and 0 <= b < a for a != 0
+  if (m_a < 0) {
+    m_a = -m_a;
+  }
   if (m_a != 0) {
+    // operator% truncates: the remainder has the sign of m_b
     m_b = m_b % m_a;
+    if (m_b < 0) {
+      m_b = m_b + m_a;
+    }
   }
 }
 
